@@ -213,7 +213,11 @@ def np_diff(a, n=1):
         raise Unsupported("diff of bool")
     d1, d0 = hi.getter(), lo.getter()
     rk = "m" if k == "M" else k
-    return Arr(hi.n, rk, lambda i: M.pair_op("sub", d1(i), d0(i), k, k), a.unit)
+    out = Arr(hi.n, rk, lambda i: M.pair_op("sub", d1(i), d0(i), k, k), a.unit)
+    # ghost: the differences telescope (their sum is last - first); used by np.mean / np.sum facts
+    src = a.getter()
+    out.telescopes = (a.n, src)
+    return out
 
 
 def np_where(cond, *rest):
@@ -328,6 +332,14 @@ def np_mean(a):
         s = SNum(vi, nan, a.kind, a.unit)
     else:
         s = SNum(v, nan, "f")
+        tel = getattr(a, "telescopes", None)
+        if tel is not None:
+            # mean(diff(x)) = (x[n-1] - x[0]) / (n - 1): over the reals (T3) the mean step has the sign of
+            # last - first.  Only the sign facts are stated (linear); the value stays uninterpreted.
+            n0, src = tel
+            d = alg.sub(src(alg.sub(n0, 1))[1], src(0)[1])
+            c.use("numpy.mean of numpy.diff: sign of the mean step = sign of last - first (telescoping sum over the reals)")
+            c.assume(alg.implies(alg.and_(alg.ge(n0, 2), alg.not_(nan)), alg.and_(alg.iff(alg.gt(v, 0), alg.gt(d, 0)), alg.iff(alg.lt(v, 0), alg.lt(d, 0)))))
     _stats().append(Stat("mean", a.copy(), s))
     return s
 
@@ -856,6 +868,19 @@ def build_np():
     np.subtract = _ufunc2("sub")
     np.multiply = _ufunc2("mul")
     np.negative = _ufunc1("neg")
+    np.floor = _ufunc1("floor")
+    np.ceil = _ufunc1("ceil")
+    np.trunc = _ufunc1("trunc")
+    np.rint = _ufunc1("rint")
+    _rint = _ufunc1("rint")
+
+    def np_round(a, decimals=0, out=None):
+        if raw(decimals) != 0 or out is not None:
+            raise Unsupported("np.round with decimals / out")
+        return _rint(a)
+
+    np.round = np_round
+    np.around = np_round
     np.count_nonzero = np_count_nonzero
     np.size = lambda a: a.size
     np.shape = lambda a: a.shape
